@@ -11,11 +11,13 @@ import (
 	"sync"
 	"time"
 
+	"github.com/robinbraemer/event"
 	"go.minekube.com/gate/pkg/edition/java/config"
 	"go.minekube.com/gate/pkg/edition/java/proto/packet"
 	"go.minekube.com/gate/pkg/edition/java/proto/state"
 	"go.minekube.com/gate/pkg/edition/java/proto/util"
 	"go.minekube.com/gate/pkg/edition/java/proto/version"
+	"go.minekube.com/gate/pkg/edition/java/proxy"
 	"go.minekube.com/gate/pkg/gate/proto"
 
 	"verifharness/codecx"
@@ -125,7 +127,30 @@ func mkPayload(r *hx.Rng, n int, compressible bool) (string, []byte) {
 	}
 }
 
+// session runs one client⇄proxy⇄backend session; a session whose SETUP did not complete (login or the switch to
+// the backend did not finish within the generous timeouts — a starved machine, nothing was relayed yet) is
+// repeated, at most three times, before its outcome is reported.
 func session(emit func(class, op, impl string), r *hx.Rng, p proto.Protocol, thrC, thrB int, c2b, b2c []item) {
+	var lines [][3]string
+	for attempt := 0; attempt < 3; attempt++ {
+		lines = lines[:0]
+		session1(func(class, op, impl string) { lines = append(lines, [3]string{class, op, impl}) }, r, p, thrC, thrB, c2b, b2c)
+		setupFailed := false
+		for _, l := range lines {
+			if l[2] == "setup-failed" || l[2] == "login-failed" || l[2] == "not-in-play" {
+				setupFailed = true
+			}
+		}
+		if !setupFailed {
+			break
+		}
+	}
+	for _, l := range lines {
+		emit(l[0], l[1], l[2])
+	}
+}
+
+func session1(emit func(class, op, impl string), r *hx.Rng, p proto.Protocol, thrC, thrB int, c2b, b2c []item) {
 	var mu sync.Mutex
 	var atBackend [][]byte
 	backendReady := make(chan *e2e.Endpoint, 1)
@@ -145,12 +170,28 @@ func session(emit func(class, op, impl string), r *hx.Rng, p proto.Protocol, thr
 	rig, err := e2e.NewRig(func(c *config.Config) { c.Compression.Threshold = thrC }, b)
 	outC2B, outB2C := "setup-failed", "setup-failed"
 	if err == nil {
+		// "while a player is in play on a backend": the transition to the backend is complete only when the proxy
+		// has set the player's connected server (ServerPostConnectEvent); packets a client sends between receiving
+		// JoinGame and that moment are dropped by design (as in Velocity), so they are outside the property.
+		inPlay := make(chan struct{})
+		var inPlayOnce sync.Once
+		event.Subscribe(rig.Proxy.Event(), 0, func(*proxy.ServerPostConnectEvent) { inPlayOnce.Do(func() { close(inPlay) }) })
 		cl := rig.Connect(net.IPv4(1, 2, 3, 4))
 		if err := e2e.ClientLogin(cl, p, "example.com", "Tester"); err == nil {
 			var bep *e2e.Endpoint
 			select {
 			case bep = <-backendReady:
-			case <-time.After(5 * time.Second):
+			case <-time.After(20 * time.Second):
+			}
+			if bep != nil {
+				select {
+				case <-inPlay:
+				case <-time.After(20 * time.Second):
+					bep = nil
+				}
+			}
+			if bep == nil {
+				outC2B, outB2C = "not-in-play", "not-in-play"
 			}
 			if bep != nil {
 				// client → backend
